@@ -191,3 +191,196 @@ func UseRec(r *rec, i int) int {
 
 // NewRec lets the test build a rec.
 func NewRec(pos int, name string) *rec { return &rec{pos: pos, name: name} }
+
+// ---- loops and state (gotrans_loop.go, gotrans_mut.go) ----
+
+// SumTo: a counting loop with continue and break.
+func SumTo(n int) int {
+	s := 0
+	for i := 0; i < n; i++ {
+		if i%3 == 1 {
+			continue
+		}
+		if i > 20 {
+			break
+		}
+		s += i
+	}
+	return s
+}
+
+// Collatz: a general loop, fuel stated by the test (x + 200).
+func Collatz(x int) int {
+	steps := 0
+	for x > 1 {
+		if x%2 == 0 {
+			x = x / 2
+		} else {
+			x = 3*x + 1
+		}
+		steps++
+		if steps > 150 {
+			return -1
+		}
+	}
+	return steps
+}
+
+// Nest: nested counting loops, the inner bound depends on the outer variable; break leaves the inner loop only.
+func Nest(n int) int {
+	t := 0
+	for i := 0; i <= n; i++ {
+		for j := i; j > 0; j-- {
+			if j == 3 {
+				break
+			}
+			t += j
+		}
+		switch {
+		case i == 2:
+			continue
+		case i == 7:
+			break // leaves the switch
+		}
+		t += 100
+	}
+	return t
+}
+
+// RangeSum: range with index and value over a slice, early return.
+func RangeSum(xs []int, stop int) int {
+	s := 0
+	for i, x := range xs {
+		if x == stop {
+			return -i
+		}
+		s += x * (i + 1)
+	}
+	return s
+}
+
+// RangeIdx: range over the indices, indexing from the end.
+func RangeIdx(xs []int) int {
+	for i := range xs {
+		if v := xs[len(xs)-i-1]; v < 0 {
+			return v
+		}
+	}
+	return 0
+}
+
+// LastByte: a loop whose condition can panic.
+func LastByte(s string, i int) int {
+	for s[i] != '.' {
+		i--
+	}
+	return i
+}
+
+type Stack struct {
+	frames []map[string]int
+	n      int
+	skip   func()
+}
+
+func (s *Stack) Push() { s.frames = append(s.frames, make(map[string]int)) }
+
+func (s *Stack) Pop() { s.frames = s.frames[:len(s.frames)-1] }
+
+func (s *Stack) Next() int {
+	s.n++
+	return s.n * 2
+}
+
+func (s *Stack) Bind(k string, v int) { s.frames[len(s.frames)-1][k] = v }
+
+func (s *Stack) Fresh(k string) int {
+	var v = s.Next()
+	s.Bind(k, v)
+	s.n += 10
+	return v + 1
+}
+
+func (s *Stack) Find(k string) int {
+	for i := len(s.frames) - 1; i >= 0; i-- {
+		if v, ok := s.frames[i][k]; ok {
+			return v
+		}
+	}
+	return -1
+}
+
+func (s *Stack) Lit(k string) (a, b int) {
+	s.n++
+	s.frames = append(s.frames, map[string]int{k: 1, "x": 2, k + "y": s.n})
+	return s.n, len(s.frames)
+}
+
+// Script runs a fixed sequence of the methods above on s (which the test passes empty) and empties it again.
+func Script(s *Stack, k string) (int, int, int, int) {
+	s.Push()
+	a := s.Fresh(k)
+	s.Push()
+	s.Bind("x", 7)
+	b := s.Find(k) + s.Find("x") + s.Find("nope")
+	s.Pop()
+	c, d := s.Lit(k)
+	e := c*1000 + s.Find(k+"y")
+	g := d*100 + s.Find("x")
+	s.frames = s.frames[:0]
+	return a, b, e, g
+}
+
+// N lets the test read the counter.
+func (s *Stack) N() int { return s.n }
+
+// NewStack lets the test build a Stack.
+func NewStack(n int) *Stack { return &Stack{n: n} }
+
+type Frame struct {
+	Vars map[string]int
+	On   bool
+}
+
+type Frames []Frame
+
+func (f *Frames) Push(on bool) { *f = append(*f, Frame{make(map[string]int), on}) }
+
+func (f Frames) Set(k string, v int) { f[len(f)-1].Vars[k] = v }
+
+func (f *Frames) Mark() { (*f)[len(*f)-1].On = true }
+
+func (f Frames) Get(k string) int {
+	for i := range f {
+		if v, ok := f[len(f)-i-1].Vars[k]; ok {
+			return v
+		}
+	}
+	return -1
+}
+
+func (f Frames) Cut() Frames {
+	for i := range f {
+		ri := len(f) - i - 1
+		if f[ri].On {
+			return f[: ri+1 : ri+1]
+		}
+	}
+	panic("none")
+}
+
+// Script2 runs a fixed sequence of the methods above on f (which the test passes empty) and empties it again.
+func Script2(f *Frames, k string, mark bool) (int, int) {
+	f.Push(false)
+	f.Set(k, 1)
+	if mark {
+		f.Mark()
+	}
+	f.Push(false)
+	f.Set("x", 2)
+	f.Set(k+"x", 3)
+	a := f.Get(k)*10 + f.Get("x")
+	b := len(f.Cut())*100 + f.Cut().Get(k) + f.Cut().Get("x")
+	*f = (*f)[:0]
+	return a, b
+}
